@@ -217,7 +217,7 @@ def run(cx, out):
     out.rule('R14.1', 'slice Input::read: copy and cursor update dominated by the length guard; failing path writes nothing; advance by exactly into.len()')
     out.rule('R14.2', 'decode_all / decode_all_with_depth_limit: one decode, failure propagated, Ok only with empty remainder and the decoded value, Err otherwise')
     out.rule('R14.3', 'tuple decoders decode components strictly in order from the same input')
-    for cfg in lib_cfgs(cx, quick=('A',), thorough=('A', 'B', 'D')):
+    for cfg in lib_cfgs(cx, quick=('D',), thorough=('A', 'B', 'D')):
         facts = cx.facts(cfg)
         unit(out, facts)
         check_slice_input(out, facts)
